@@ -129,7 +129,7 @@ class LoopyCall(AbstractResultWithNamedArrays):
 
     @override
     def __hash__(self) -> int:
-        return hash((self.translation_unit, tuple(self.bindings.items()),
+        return hash((self.translation_unit, frozenset(self.bindings.items()),
                      self.entrypoint, self.tags))
 
     @override
